@@ -2,7 +2,8 @@
 from props.common_prog import judge_prog
 
 THEOREM_MODULES = ["Hcl.Theorems.C12"]
-THEOREMS = {"Hcl.Theorems.C12": ["C12_verdict_order_independent", "C12_rejected_on_every_run", "C12_constants_order_independent",
+THEOREMS = {"Hcl.Theorems.C12": ["C12_verdict_order_independent", "C12_rejected_on_every_run", "C12_diagnostics_order_independent",
+                                 "Program_new_errors_order_independent", "resolveConstants_errors_order_independent", "assignmentsToActions_errors_order_independent", "C12_constants_order_independent",
                                  "C12_accepted", "C12_cycle", "C12_run", "C12_report",
                                  "C12_loop_verdict_order_independent", "C12_values_schedule_independent",
                                  "Program_new_verdict", "resolveConstants_order_independent", "assignmentsToActions_verdict",
